@@ -1003,6 +1003,14 @@ class Job:
         # transparent id updates between shallow copies of a job.
         self.statepoint._jobs.append(self)
 
+    def __copy__(self):
+        # Shallow copies share the state point object so that they follow each
+        # other's state point changes; make sure it exists before copying.
+        self.statepoint
+        result = type(self).__new__(type(self))
+        result.__setstate__(self.__getstate__())
+        return result
+
     def __deepcopy__(self, memo):
         cls = self.__class__
         result = cls.__new__(cls)
